@@ -1,4 +1,5 @@
 import RzmqModel.Model.Routing
+import RzmqModel.Model.Lifecycle
 import RzmqModel.Proofs.Backoff
 /-!
 # C17 — reconnect back-off arithmetic (both schedules in the code), all (RECONNECT_IVL, RECONNECT_IVL_MAX, attempt)
@@ -84,5 +85,48 @@ theorem conn_first_capped (m base inh : Nat) (hm : 0 < m) : connDelay (some m) b
 /-- and therefore every delay of the connecter's schedule does, with no side condition on RECONNECT_IVL -/
 theorem conn_always_capped (m base inh j : Nat) (hm : 0 < m) : connDelay (some m) base inh j ≤ m := by
   exact connDelay_le_cap m base inh j hm
+
+-- failure locality --------------------------------------------------------------------------------------------
+
+/-- A socket starts its own shutdown only on an event that is about the socket itself (its own close, the
+termination of its context, a failure of its own internals) — never because of what another socket or a
+peer did: a failed or refused connection of any kind (child actor stopped with an error, connect attempt
+failed, an incompatible inproc connector) leaves it running.  (Assumption: the shared event bus does not lag;
+see `bus_lag_shuts_down`.) -/
+theorem event_result_local (self : Nat) (e : SysEvent) (hlag : e ≠ .busLagged)
+    (h : handleEvent self e = .shutDown) : aboutSelf self e = true := by
+  cases e with
+  | contextTerminating => rfl
+  | socketClosing id =>
+    simp only [handleEvent, Gen.evSocketClosingOnlyOwn] at h
+    simp only [aboutSelf]
+    by_cases hid : (id == self) = true
+    · exact hid
+    · simp [hid] at h
+  | actorStopping p er => simp [handleEvent] at h
+  | peerIdentityEstablished p => simp [handleEvent] at h
+  | connectionAttemptFailed p => simp [handleEvent] at h
+  | inprocBindingRequest forMe compatible taken mailboxClosed =>
+    simp only [handleEvent, Gen.inprocRefusalKeepsBinder] at h
+    cases forMe <;> cases compatible <;> cases taken <;> cases mailboxClosed <;> simp_all [aboutSelf]
+  | actorStarted => simp [handleEvent] at h
+  | busLagged => exact absurd rfl hlag
+
+/-- a refused (incompatible) inproc connector does not touch the binder (fixed in b9fdf8d) -/
+theorem inproc_refusal_is_local (self : Nat) :
+    handleEvent self (.inprocBindingRequest true false false false) = .carryOn := by
+  simp [handleEvent, Gen.inprocRefusalKeepsBinder]
+
+/-- another socket closing, or any child/connection failure, never shuts this socket down -/
+theorem other_sockets_events_are_ignored (self other : Nat) (hne : other ≠ self) (p : Option Nat) (er : Bool) :
+    handleEvent self (.socketClosing other) = .carryOn ∧ handleEvent self (.actorStopping p er) = .carryOn
+    ∧ handleEvent self (.connectionAttemptFailed self) = .carryOn := by
+  refine ⟨?_, rfl, rfl⟩
+  simp [handleEvent, Gen.evSocketClosingOnlyOwn, hne]
+
+/-- (suspected defect, not reproduced on the real code: see DESIGN §11 row 23) a lagging receiver on the shared
+event bus does shut the socket down — an event caused by the *volume* of other sockets' activity -/
+theorem bus_lag_shuts_down (self : Nat) : handleEvent self .busLagged = .shutDown := by
+  simp [handleEvent, Gen.busLagShutsSocketDown]
 
 end Rzmq.C17
